@@ -1,0 +1,32 @@
+//go:build verif
+
+package lsp
+
+// Contracts for the govc verification-condition generator (see /verif/DESIGN.md, section 1.2).
+// This file is comment-only: it contains no declarations and changes no compiled code.
+
+// sumLines(h, p, k): byte length of the first k lines stored at p in string memory h, each followed by a newline.
+//@ specrec sumLines(h (Array Int Str), p Int, k Int) Int = (ite (<= k 0) 0 (+ (sf_sumLines h p (- k 1)) (slen (select h (+ p (- k 1)))) 1))
+
+//@ func clampOffset
+//@   requires n >= 0
+//@   ensures 0 <= result && result <= max0(n)
+//@   ensures implies(0 <= offset && offset <= n, result == offset)
+
+//@ func utf16ToByteOffset
+//@   ensures 0 <= result && result <= len(line)
+//@   ensures implies(char <= 0, result == 0)
+//@   loop 1 invariant 0 <= i && i <= len(line) && 0 <= units && implies(char <= 0, i == 0)
+//@   loop 1 decreases len(line) - i
+
+//@ func positionToOffset
+//@   ensures 0 <= result
+//@   ensures implies(pos.Line < 0, result == 0)
+//@   ensures implies(0 <= pos.Line && pos.Line < len(lines), sumLines(mem(lines), ptr(lines), pos.Line) <= result && result <= sumLines(mem(lines), ptr(lines), pos.Line) + len(lines[pos.Line]))
+//@   ensures implies(pos.Line >= len(lines), result == max0(sumLines(mem(lines), ptr(lines), len(lines)) - 1))
+//@   loop 1 invariant 0 <= i && i <= len(lines) && i <= pos.Line && 0 <= offset && offset == sumLines(mem(lines), ptr(lines), i)
+//@   loop 1 decreases len(lines) - i
+
+//@ func (*Document).GetWordAtPosition
+//@   loop 1 invariant 0 <= start && start <= pos.Character
+//@   loop 2 invariant pos.Character <= end && end <= len(runes) && 0 <= start && start <= end
